@@ -44,6 +44,14 @@ void h_rt_u64(void) {
     __CPROVER_assert(SCPI_ParamToUInt64(&ctx, &t, &back) && back == v, "C07: unsigned 64-bit value decodes back exactly");
     REACH("rt_u64");
 }
+/* C04/C07: a nondecimal literal decodes to its exact value as floating point (all values below 2^53) */
+void h_rt_hex_double(void) {
+    uint64_t v = nondet_u64(); double back = -1.0; __CPROVER_assume(v < (1ull << 53)); setup();
+    SCPI_ResultUInt64Base(&ctx, v, 16);
+    scpi_token_t t; relex(&t);
+    __CPROVER_assert(SCPI_ParamToDouble(&ctx, &t, &back) && back == (double) v, "C04: #H literal decodes to its exact value as double");
+    REACH("rt_hex_double");
+}
 void h_rt_bool(void) {
     scpi_bool_t v = nondet_bool(); setup(); SCPI_ResultBool(&ctx, v);
     scpi_token_t t; relex(&t); int32_t back = 7;
